@@ -140,7 +140,7 @@ fn capacity(out: &mut Out) {
 }
 
 pub fn run_c16(out: &mut Out, rng: &mut Rng, tier: Tier) -> String {
-    let shapes: Vec<(usize, usize)> = vec![(0, 0), (0, 3), (4, 0), (1, 1), (2, 3), (1, 7), (5, 5), (7, 3), (16, 16), (40, 50), (97, 101), (1, 4099), (300, 334)];
+    let shapes: Vec<(usize, usize)> = vec![(0, 0), (0, 3), (4, 0), (1, 1), (2, 3), (1, 7), (9, 1), (5, 5), (7, 3), (16, 16), (40, 50), (97, 101), (3, 683), (1, 4099), (300, 334)];
     let pools: Vec<usize> = if tier == Tier::Quick { vec![1, 2, 3, 4, 7, 16, 32] } else { (1..=32).collect() };
     let mut cases = 0;
     for &(nr, nc) in &shapes {
@@ -158,7 +158,7 @@ pub fn run_c16(out: &mut Out, rng: &mut Rng, tier: Tier) -> String {
     }
     capacity(out);
     format!(
-        "{cases} configurations: shapes 0x0, 0x3, 1x1, 2x3, 1x7, 5x5, 7x3, 16x16, 40x50, 97x101, 1x4099, 300x334 (from fewer elements than threads to 100200 elements, sizes not multiples of 1024 / 4096) x both orders x thread-pool sizes {:?} (dedicated rayon pools), \
+        "{cases} configurations: shapes 0x0, 0x3, 4x0, 1x1, 2x3, 1x7, 9x1 (row and column vectors in both orders), 5x5, 7x3, 16x16, 40x50, 97x101, 3x683, 1x4099, 300x334 (from fewer elements than threads to 100200 elements, sizes not multiples of 1024 / 4096) x both orders x thread-pool sizes {:?} (dedicated rayon pools), \
          each running par_apply, par_map, par_map_ref, par_iter_elements, par_iter_elements_mut, into_par_iter_elements and the three *_with_index forms with a per-element run-time jitter derived from the run's PRNG (work splitting / stealing is perturbed); CapacityOverflow decisions of par_map / par_map_ref / map on zero-sized sources of up to usize::MAX elements. \
          Oracle: the parallel result equals the sequential operation's result element for element (multiset of (index, element) for the indexed forms), shape and order copied, per-element invocation counters all exactly 1; the number of distinct worker threads seen is recorded in the distribution. A case = one shape x order x pool size",
         pools
